@@ -276,3 +276,17 @@ package tmmemstore
 //@       s.phs[ph.Header.Height][ph.Round][bytes(ph.Header.Hash)][i] == old(s.phs[ph.Header.Height][ph.Round][bytes(ph.Header.Hash)][i])
 //@   modifies heap
 //@   loop 1 invariant no-match-so-far: forall j int :: 0 <= j && j <= rangeindex ==> !sameKey(ph.ProposerPubKey, havePHs[j].ProposerPubKey)
+
+// LoadRoundState returns the vote collections last written for (height, round), and reports an unknown round only when
+// nothing at all is stored for it.
+//@ func RoundStore.LoadRoundState
+//@   property C16
+//@   option single-critical-section on
+//@   ensures returns-latest-prevotes: (height in s.prevotes) ==> prevotes == s.prevotes[height][round]
+//@   ensures returns-latest-precommits: (height in s.precommits) ==> precommits == s.precommits[height][round]
+//@   ensures no-votes-without-a-write: (!(height in s.prevotes) ==> prevotes.BlockSignatures == nil) && (!(height in s.precommits) ==> precommits.BlockSignatures == nil)
+//@   ensures unknown-round-only-when-nothing-is-stored: err != nil ==> istype(err, tmconsensus.RoundUnknownError) &&
+//@       unbox(err, tmconsensus.RoundUnknownError).WantHeight == height && unbox(err, tmconsensus.RoundUnknownError).WantRound == round &&
+//@       phs == nil && prevotes.BlockSignatures == nil && precommits.BlockSignatures == nil
+//@   ensures stored-votes-are-found: prevotes.BlockSignatures != nil || precommits.BlockSignatures != nil ==> err == nil
+//@   modifies nothing
